@@ -1463,6 +1463,10 @@ func main() {
 				// the same predicate in a pattern with two variables, on the first and on the second one
 				mkRule("first", "p%d($x, $y)", "x")
 				mkRule("second", "p%d($x, $y)", "y")
+				// ... and about the whole match: `$$` is the matched call r<J>() (an int-valued call in 66 contexts)
+				if !p.refusable {
+					mkRule("dollar", "r%d()", "$$")
+				}
 			case 'l':
 				mkRule("list", "p%d($*xs)", "xs")
 				// a list capture that does not start at the first argument
@@ -1531,7 +1535,7 @@ func main() {
 				switch r.kind {
 				case "stmt":
 					ji, ok = posToQ[rep.Pos]
-				case "root":
+				case "root", "dollar":
 					ji, ok = posToR[rep.Pos]
 				default:
 					ji, ok = posToP[rep.Pos]
@@ -1645,6 +1649,20 @@ func main() {
 						o.Facts = []int{int(safe(func() tri { return p.fact(e, es.X) }))}
 					} else {
 						o.Shape = "stmt"
+					}
+					r.out.Obs = append(r.out.Obs, o)
+				}
+			case "dollar":
+				for i, s := range rcalls[r.j] {
+					s := s
+					ctx := "return"
+					if s.ctx != nil {
+						ctx = s.ctx.stmt
+					}
+					o := obs{Site: "$$ = the call r() in: " + ctx, Shape: "one", Verdict: acc[r][i], GoVer: gover, Node: -1, Detached: detached(r, i),
+						Facts: []int{int(safe(func() tri { return p.fact(e, s.call) }))}}
+					if p.nilT != nil {
+						o.Nil = int(safe(func() tri { return p.nilT(e) }))
 					}
 					r.out.Obs = append(r.out.Obs, o)
 				}
